@@ -64,6 +64,7 @@ func c04Bounds() map[string]c04Bound {
 	m["recv"] = c04Bound{8, 1 << 20}
 	m["fragseq"] = c04Bound{16, 1 << 16}
 	m["hello"] = c04Bound{64, 1 << 21}
+	m["process"] = c04Bound{64, 1 << 16}
 	m["resolve"] = c04Bound{256, 1 << 16}
 	m["procmulti"] = c04Bound{64, 1 << 20}
 	m["json"] = c04Bound{64, 1 << 21}
@@ -82,7 +83,7 @@ var c04Entry = map[string]string{
 	"r.systemio": "result.SystemIO", "r.script": "result.Script",
 	"s.bytes": "data.reader.Bytes", "s.strlist": "data.reader.ReadStringList",
 	"dns": "transform.DNS.Read", "b64": "transform.B64.Read", "cbk": "crypto.CBK.Read",
-	"wire": "com.Packet.Unmarshal", "rp": "c2.readPacket", "handle": "c2.handle", "recv": "c2.receive", "fragseq": "c2.receive(fragment sequence)", "hello": "c2.Listener.talk(key material)",
+	"wire": "com.Packet.Unmarshal", "rp": "c2.readPacket", "handle": "c2.handle", "recv": "c2.receive", "fragseq": "c2.receive(fragment sequence)", "hello": "c2.Listener.talk(key material)", "process": "c2.conn.process",
 	"resolve": "c2.conn.resolve", "procmulti": "c2.conn.processMultiple", "json": "c2.Session.JSON",
 	"hang": "c2.readDeviceInfo", "hsw": "c2.handle", "e2e": "e2e", "e2eraw": "c2.Listener(e2e)",
 }
@@ -1013,6 +1014,39 @@ func runC04(c *Ctx) {
 			}
 		}
 	}
+	flush()
+	// 6c. conn.process: all 24 combinations of (host has nothing to send, single / multi-device packet,
+	// channel mode, 0..2 tag-resolved batches)
+	for _, a := range []string{"0", "1"} {
+		for _, b := range []string{"0", "1"} {
+			for _, o := range []string{"0", "1"} {
+				for _, k := range []string{"0", "1", "2"} {
+					add(fmt.Sprintf("process %s %s %s %s", a, b, o, k), 46, false)
+				}
+			}
+		}
+	}
+	flush()
+	// 6d. the wire header announces far more than follows (length classes 5 and 7): memory must follow
+	// the bytes received, not the announcement
+	c.Cases("wirelen", c.N(60, 600), func(r *Rng, i int) {
+		ann := []uint64{1 << 20, 1 << 24, 1 << 28, 1<<31 - 1, 1 << 31, 1<<32 - 1, 1 << 33, 1 << 40}[i%8]
+		body := r.Bytes([]int{0, 1, 63, 64, 65, 200, 1000, 4096, 20000}[r.Intn(9)])
+		b := make([]byte, 32, 64+len(body))
+		copy(b, r.Bytes(32))
+		b[0] |= 1
+		b = append(b, 0x20, 0, 9, 0, 0, 0, 0, 0, 0, 0, 0, 0, 0)
+		if ann < 1<<32 {
+			b = append(b, 5, byte(ann>>24), byte(ann>>16), byte(ann>>8), byte(ann))
+		} else {
+			b = append(b, 7, byte(ann>>56), byte(ann>>48), byte(ann>>40), byte(ann>>32), byte(ann>>24), byte(ann>>16), byte(ann>>8), byte(ann))
+		}
+		b = append(b, body...)
+		add("wire "+hxChunks(r.Split(b)), len(b), false)
+		add(fmt.Sprintf("rp 0 %s", hx(b)), len(b), false)
+		add(fmt.Sprintf("handle 0 %s", hx(b)), len(b), false)
+		c.Eval(true, "wirelen"+hx(b[:50]))
+	})
 	flush()
 	// 7. the hang witness (nil-buffer Chunk) and end-to-end smoke
 	add("hang -", 0, false)
